@@ -68,7 +68,7 @@ def check(ctx: Ctx, rep: Report):
             bad = []
             for c in cases:
                 if c.outcome == "raise" and c.value != "ValueError":
-                    bad.append("raises %s" % c.value)
+                    bad.append("raises %s%s" % (c.value, "".join(" (%s)" % n[11:] for n in c.notes if n.startswith("TypeError: "))))
                 if c.value is not None and isinstance(c.value, tuple) and c.value and c.value[0] == "typeerror":
                     bad.append("TypeError: %s" % c.value[1])
                 if c.value is not None and isinstance(c.value, tuple) and c.value and c.value[0] == "raised" and c.value[1] != "ValueError":
